@@ -28,6 +28,7 @@
 #include <soundswallower/fe.h>
 #include <soundswallower/feat.h>
 #include <soundswallower/fsg_model.h>
+#include <soundswallower/fsg_search.h>
 #include <soundswallower/lattice.h>
 #include <soundswallower/logmath.h>
 #include <soundswallower/mllr.h>
@@ -234,6 +235,7 @@ static void config_args(config_t *c, int argc, char **argv)
     int i;
     for (i = 0; i + 1 < argc; i += 2) {
         if (!strcmp(argv[i], "dict")) config_set_str(c, "dict", repo_path(3, argv[i + 1]));
+        else if (!strcmp(argv[i], "hmm")) config_set_str(c, "hmm", repo_path(3, argv[i + 1])); /* another model directory */
         else if (!strcmp(argv[i], "sdict")) { snprintf(pathbuf[3], sizeof(pathbuf[3]), "%s/%s", SCRATCH, argv[i + 1]); config_set_str(c, "dict", pathbuf[3]); }
         else if (!strcmp(argv[i], "logfn")) { snprintf(pathbuf[4], sizeof(pathbuf[4]), "%s/%s", SCRATCH, argv[i + 1]); config_set_str(c, "logfn", pathbuf[4]); }
         else config_set_str(c, argv[i], argv[i + 1]);
@@ -258,6 +260,19 @@ static int al_reuse(void)
 {
     return D && D->align && ((state_align_search_t *)D->align)->frame == D->acmod->output_frame;
 }
+
+/* size of the FSG search's history table after an utterance (close-c09: block-crossing family).  Read through the
+ * installed headers; the history is a blkarray_list whose rows hold `blksize` entries each. */
+#include <soundswallower/fsg_history.h>
+#include <soundswallower/blkarray_list.h>
+static blkarray_list_t *vf_hist(void)
+{
+    fsg_search_t *fs = D ? (fsg_search_t *)D->search : NULL;
+    return (fs && fs->history) ? fs->history->entries : NULL;
+}
+static int vf_hist_entries(void) { blkarray_list_t *b = vf_hist(); return b ? (int)blkarray_list_n_valid(b) : -1; }
+static int vf_hist_blocks(void) { blkarray_list_t *b = vf_hist(); return b ? (int)blkarray_list_cur_row(b) + 1 : -1; }
+static int vf_hist_blksize(void) { blkarray_list_t *b = vf_hist(); return b ? (int)blkarray_list_blksize(b) : -1; }
 
 static int count(void **a) { int i, n = 0; for (i = 0; i < NSLOT; i++) n += a[i] != NULL; return n; }
 
@@ -337,6 +352,33 @@ static void touch_node(lattice_t *dag, latnode_t *nd)
     volatile size_t n = (w ? strlen(w) : 0) + (bw ? strlen(bw) : 0); (void)n;
     latnode_times(nd, &fef, &lef); latnode_times(nd, NULL, NULL);
     ps_latnode_prob(dag, nd, &bl); ps_latnode_prob(dag, nd, NULL);
+}
+/* How many FURTHER elements an iterator will deliver (observed once, when the iterator is created, and handed to the model,
+ * which from then on predicts every ..._next).  Segment / lattice iterators: a second, private iterator is walked through
+ * the real functions, bypassing the counting wrappers (`(f)(x)` is not a macro call).  Alignment iterators: computed from
+ * the entry vector (the elements after `pos` that have the iterator's parent). */
+static int rem_seg(seg_iter_t *s) { int n = 0; if (!s) return 0; while ((s = (seg_iter_next)(s))) n++; return n; }
+/* decoder_seg_iter: unless the best-path pass produced the iterator (fsg_search.c:1105-1116: `bestpath` set and the
+ * utterance final), it is a backtrace of the history table whose length was fixed when it was made: the count is read off
+ * the iterator itself, independently of seg_iter_next */
+static int rem_dec_seg(decoder_t *d, seg_iter_t *s)
+{
+    fsg_search_t *fs = (fsg_search_t *)d->search;
+    if (!(fs->bestpath && fs->final)) { fsg_seg_t *f = (fsg_seg_t *)s; return f->n_hist - f->cur - 1; }
+    return rem_seg((decoder_seg_iter)(d));
+}
+/* lattice node / link iterators are the list cells themselves (lattice.h:71, 84): the count is the length of the rest of
+ * the list, read off the `next` fields without calling the iterator functions */
+static int rem_lnode(latnode_iter_t *it) { int n = 0; struct latnode_s *q; for (q = it ? it->next : NULL; q; q = q->next) n++; return n; }
+static int rem_llink(latlink_iter_t *it) { int n = 0; struct latlink_list_s *q; for (q = it ? it->next : NULL; q; q = q->next) n++; return n; }
+static int rem_ali(alignment_iter_t *it)
+{
+    int n = 0, p;
+    for (p = it->pos + 1; p < (int)it->vec->n_ent; p++) {
+        if (it->parent != ALIGNMENT_NONE && it->vec->seq[p].parent != it->parent) break;
+        n++;
+    }
+    return n;
 }
 static void touch_lat(lattice_t *dag)
 {
@@ -583,7 +625,9 @@ int main(int argc, char **argv)
             int r; NEED_D; r = decoder_start_utt(D); RET(r == 0 ? "ok" : "err");
         } else if (!strcmp(w[0], "end")) {
             int r, f0; NEED_D; f0 = decoder_n_frames(D); r = decoder_end_utt(D);
-            if (r == 0) RET("ok adv=%d", decoder_n_frames(D) != f0); else RET("err");
+            /* he= / hb=: entries and blocks of the search history (a blkarray_list: blocks of `blksize` entries) */
+            if (r == 0) RET("ok adv=%d he=%d hb=%d bs=%d", decoder_n_frames(D) != f0, vf_hist_entries(), vf_hist_blocks(), vf_hist_blksize());
+            else RET("err");
         } else if (!strcmp(w[0], "proc") && n >= 7) {
             /* proc i16|f32 clip off len no_search full_utt */
             size_t off = (size_t)atol(w[3]), len = (size_t)atol(w[4]), k;
@@ -616,7 +660,7 @@ int main(int argc, char **argv)
             NEED_D;
             if (!SLOT_OK(k) || SEG[k]) { RET("skip"); continue; }
             SEG[k] = decoder_seg_iter(D);
-            if (SEG[k]) { touch_seg(SEG[k]); RET("ptr"); } else RET("null");
+            if (SEG[k]) { touch_seg(SEG[k]); RET("ptr k=%d", rem_dec_seg(D, SEG[k])); } else RET("null");
         } else if (!strcmp(w[0], "segnext") && n >= 2) {
             int k = atoi(w[1]);
             if (!SLOT_OK(k) || !SEG[k]) { RET("skip"); continue; }
@@ -648,7 +692,7 @@ int main(int argc, char **argv)
             int j = atoi(w[1]), k = atoi(w[2]);
             if (!SLOT_OK(k) || !HYP[k] || !SLOT_OK(j) || SEG[j]) { RET("skip"); continue; }
             SEG[j] = hyp_iter_seg(HYP[k]);
-            if (SEG[j]) { touch_seg(SEG[j]); RET("ptr"); } else RET("null");
+            if (SEG[j]) { touch_seg(SEG[j]); RET("ptr k=%d", rem_seg((hyp_iter_seg)(HYP[k]))); } else RET("null");
         } else if (!strcmp(w[0], "lattice")) {
             lattice_t *l; NEED_D; l = decoder_lattice(D);
             if (l) touch_lat(l);
@@ -718,7 +762,7 @@ int main(int argc, char **argv)
             l = lat_of(src);
             if (!l) { RET("null lat=0"); continue; }
             LN[j] = ps_latnode_iter(l); C->lndag[j] = l;
-            if (LN[j]) { touch_node(l, ps_latnode_iter_node(LN[j])); RET("ptr lat=1"); } else RET("null lat=1");
+            if (LN[j]) { touch_node(l, ps_latnode_iter_node(LN[j])); RET("ptr lat=1 k=%d", rem_lnode(LN[j])); } else RET("null lat=1");
         } else if (!strcmp(w[0], "lnodenext") && n >= 2) {
             int k = atoi(w[1]);
             if (!SLOT_OK(k) || !LN[k]) { RET("skip"); continue; }
@@ -734,7 +778,7 @@ int main(int argc, char **argv)
             if (!SLOT_OK(k) || !LN[k] || !SLOT_OK(j) || LL[j]) { RET("skip"); continue; }
             LL[j] = !strcmp(w[3], "exits") ? ps_latnode_exits(ps_latnode_iter_node(LN[k])) : ps_latnode_entries(ps_latnode_iter_node(LN[k]));
             C->lldag[j] = C->lndag[k];
-            if (LL[j]) { touch_link(C->lldag[j], ps_latlink_iter_link(LL[j])); RET("ptr"); } else RET("null");
+            if (LL[j]) { touch_link(C->lldag[j], ps_latlink_iter_link(LL[j])); RET("ptr k=%d", rem_llink(LL[j])); } else RET("null");
         } else if (!strcmp(w[0], "llinknext") && n >= 2) {
             int k = atoi(w[1]);
             if (!SLOT_OK(k) || !LL[k]) { RET("skip"); continue; }
@@ -796,7 +840,7 @@ int main(int argc, char **argv)
             if (!a) { RET("null al=0 ru=%d", ru); continue; }
             ALI[j] = !strcmp(w[2], "words") ? alignment_words(a)
                 : (!strcmp(w[2], "phones") ? alignment_phones(a) : alignment_states(a));
-            if (ALI[j]) { touch_ali(ALI[j]); RET("ptr al=1 ru=%d", ru); } else RET("null al=1 ru=%d", ru);
+            if (ALI[j]) { touch_ali(ALI[j]); RET("ptr al=1 ru=%d k=%d", ru, rem_ali(ALI[j])); } else RET("null al=1 ru=%d", ru);
         } else if (!strcmp(w[0], "alinext") && n >= 2) {
             int k = atoi(w[1]);
             if (!SLOT_OK(k) || !ALI[k]) { RET("skip"); continue; }
@@ -807,12 +851,12 @@ int main(int argc, char **argv)
             int j = atoi(w[1]), k = atoi(w[2]);
             if (!SLOT_OK(k) || !ALI[k] || !SLOT_OK(j) || ALI[j]) { RET("skip"); continue; }
             ALI[j] = alignment_iter_children(ALI[k]);
-            if (ALI[j]) { touch_ali(ALI[j]); RET("ptr"); } else RET("null");
+            if (ALI[j]) { touch_ali(ALI[j]); RET("ptr k=%d", rem_ali(ALI[j])); } else RET("null");
         } else if (!strcmp(w[0], "aligoto") && n >= 3) {
             int k = atoi(w[1]);
             if (!SLOT_OK(k) || !ALI[k]) { RET("skip"); continue; }
             ALI[k] = alignment_iter_goto(ALI[k], atoi(w[2]));
-            if (ALI[k]) { touch_ali(ALI[k]); RET("ptr"); } else RET("null");
+            if (ALI[k]) { touch_ali(ALI[k]); RET("ptr k=%d", rem_ali(ALI[k])); } else RET("null");
         } else if (!strcmp(w[0], "alifree") && n >= 2) {
             int k = atoi(w[1]);
             if (!SLOT_OK(k) || !ALI[k]) { RET("skip"); continue; }
